@@ -13,6 +13,7 @@ def main(argv=None):
     ap.add_argument("pid")
     ap.add_argument("--tier", default=None)
     ap.add_argument("--replay", default=None)
+    ap.add_argument("rest", nargs="*")
     ap.add_argument("--record-expected", action="store_true", help="developer only: rewrite expected_discharged.json")
     args = ap.parse_args(argv)
     from vf.pyvc import verify
